@@ -1,6 +1,7 @@
 """C04 -- 1014 blocking: output is well-formed and data-exact for every write sequence"""
 from vsym.runner import Ob
 from .common import *
+from vsym.core import choose
 
 PROPERTY = 'C04'
 ASSUMPTIONS = [
@@ -129,6 +130,27 @@ def oneshot(nmax, maxblocks):
     return h
 
 
+def megabyte():
+    """one very large write (a whole file handed over in one call): concrete lengths, the loop runs natively"""
+    def h():
+        from . import ref
+        m = M().mciipm
+        lens = choose('lengths', [[300, 1012 * 1050, 1200], [1012 * 1100 + 5], [1, 1012 * 1001]])
+        core.FUEL.set(1300)
+        f = RopeFile()
+        blk = m.Block1014(f)
+        rp = {'kind': 'writes', 'args': {'lengths': lens, 'end': 'finalise'}}
+        data = [ref.content(n, i) for i, n in enumerate(lens)]
+        with guard('Block1014.write of about a megabyte', 'C04/large-write', rp):
+            for d in data:
+                blk.write(d)
+            blk.finalise()
+        prob = ref.blocked_problem(f.getvalue(), b''.join(data), True)
+        require(prob is None, 'large write: %s' % prob, key='C04/large-write', replay=rp)
+        return {'sample': {'lengths': lens, 'size': len(f.getvalue())}, 'replay': rp}
+    return h
+
+
 def obligations(tier):
     q = tier == 'quick'
     nmax = 3 * 1012 + 50 if q else 6100
@@ -145,6 +167,8 @@ def obligations(tier):
         Ob('oneshot/block_1014-vs-streaming', oneshot(3100 if q else 6100, 5 if q else 8), 120,
            'input length 0..%d' % (3100 if q else 6100), _funcs),
     ]
+    obs.append(Ob('history/megabyte-write', megabyte(), 120, 'three concrete write sequences with one write of about a megabyte (over 1000 blocks)', _funcs,
+                  'symbolic write lengths above %d bytes' % nmax))
     if not q:
         obs.append(Ob('history/3-writes', history([1100, 2100, 1100], 6), 300, 'three writes 0..1100/0..2100/0..1100', _funcs))
     return obs
